@@ -816,6 +816,17 @@ def gen(rng, tier):
                         if hk % 4 == 0:
                             c['fills'] = [['F', ['f', -0.5]]]
                         cases.append(c)
+    # falsy fill values (0, 0.0, False, '') are values, not "nothing given": as per-variable keyword over a truthy fill_value, and as fill_value
+    falsy = [('F', ['f', 0.0], ['f', 2.5]), ('I', ['i', 0], ['i', 7]), ('B', ['b', False], ['b', True]), ('S', ['s', ''], ['s', 'ab'])]
+    for vi, (vname, fz, truthy) in enumerate(falsy):
+        for cls in ('VC', 'BM'):
+            for n_old, n_new in ((1, 3), (2, 3)):
+                base = {'cls': cls, 'old': fams[0][2](n_old), 'new': fams[0][2](n_new), 'vars': STD_VARS[vi:vi + 1], 'solved': 1, 'strict': None, 'obj_strict': False}
+                cases.append(dict(base, fill_value=truthy if cls == 'VC' else None, fills=[[vname, fz]]))
+                cases.append(dict(base, fill_value=fz if cls == 'VC' else None, fills=[]))
+                cases.append(dict(base, fill_value=fz if cls == 'VC' else None, fills=[[vname, truthy]]))
+                if cls == 'BM':
+                    cases.append(dict(base, fill_value=None, fills=[['iterations', ['i', 0]], ['status', ['s', '']]]))
     # the pandas mixin: default arguments, explicit fills, fill methods
     pk = 0
     for fname, uni, mk, _ in fams:
